@@ -10,6 +10,11 @@ package checks
 //      equal to the values recomputed from the commit objects.
 // go-git has no chain writer (Encoder emits no BASE chunk), so "chain go-git
 // writes" is empty; go-git re-encoding a git-written file is covered.
+// Every file go-git writes is also read back by go-git itself (a file that
+// passes `git commit-graph verify` is a valid commit-graph, so go-git must
+// read it like any other), and besides one file per case go-git writes one
+// file per timestamp scheme holding the commits of ALL the cases of the scheme
+// (thousands of commits, hundreds of octopus merges, every fanout bucket).
 
 import (
 	"bytes"
@@ -146,6 +151,214 @@ func c51MiniRepo(dir, mainObjects string, graph []byte) {
 	must(os.WriteFile(filepath.Join(dir, "objects", "info", "commit-graph"), graph, 0o644))
 }
 
+
+// c51EmptyBlob is the id of the empty blob.
+const c51EmptyBlob = "e69de29bb2d1d6434b8b29ae775ad8c2e48c5391"
+
+// c51Trees returns one distinct root tree per commit number (tree k holds the
+// single empty file "f<k>") so that a root tree read from the wrong record
+// is visible, plus the objects to store.
+func c51Trees(n int) (ids []string, objs []eObj) {
+	objs = append(objs, eObj{Type: "blob", Body: []byte{}, ID: c51EmptyBlob})
+	if got := eHashObj("blob", nil); got != c51EmptyBlob {
+		fw.Abort("empty blob id %s", got)
+	}
+	raw := plumbing.NewHash(c51EmptyBlob)
+	for k := 0; k < n; k++ {
+		body := append([]byte(fmt.Sprintf("100644 f%d\x00", k)), raw.Bytes()...)
+		id := eHashObj("tree", body)
+		ids = append(ids, id)
+		objs = append(objs, eObj{Type: "tree", Body: body, ID: id})
+	}
+	return
+}
+
+// c51Compare compares what idx says about commit i of in with the values
+// recomputed from the commit objects. wantV2 tells whether the file(s) carry
+// generation data (GDA2) in every layer. ni is the CommitNode view of idx.
+func c51Compare(idx cgfmt.Index, ni cgobj.CommitNodeIndex, hashes map[plumbing.Hash]bool, in *eInst, i int, lvl, corr []uint64, wantV2 bool) (kinds []string, obs map[string]any) {
+	var data *cgfmt.CommitData
+	var pos uint32
+	var err error
+	pan := eSafe(func() {
+		pos, err = idx.GetIndexByHash(in.H[i])
+		if err == nil {
+			data, err = idx.GetCommitDataByIndex(pos)
+		}
+	})
+	obs = map[string]any{}
+	switch {
+	case pan != "":
+		kinds = append(kinds, "panic")
+		obs["panic"] = pan
+		return
+	case err != nil:
+		kinds = append(kinds, "lookup error")
+		obs["error"] = err.Error()
+		return
+	}
+	pan = eSafe(func() {
+		if h, e := idx.GetHashByIndex(pos); e != nil || h != in.H[i] {
+			kinds = append(kinds, "GetHashByIndex mismatch")
+		}
+		if hashes != nil && !hashes[in.H[i]] {
+			kinds = append(kinds, "missing from Hashes()")
+		}
+		if data.TreeHash.String() != in.Tree[i] {
+			kinds = append(kinds, "tree")
+		}
+		var ph []string
+		for _, p := range data.ParentHashes {
+			ph = append(ph, p.String())
+		}
+		var want []string
+		for _, p := range in.Parents[i] {
+			want = append(want, in.ID[p])
+		}
+		if strings.Join(ph, " ") != strings.Join(want, " ") {
+			kinds = append(kinds, "parents")
+		}
+		if len(data.ParentIndexes) != len(want) {
+			kinds = append(kinds, "parent indexes")
+		} else {
+			for k, pi := range data.ParentIndexes {
+				if h, e := idx.GetHashByIndex(pi); e != nil || h.String() != want[k] {
+					kinds = append(kinds, "parent indexes")
+					break
+				}
+			}
+		}
+		if data.When.Unix() != in.Time[i] {
+			kinds = append(kinds, "commit time")
+		}
+		if data.Generation != lvl[i] {
+			kinds = append(kinds, "generation v1")
+		}
+		wantCorr := corr[i]
+		switch {
+		case wantV2 && !idx.HasGenerationV2():
+			kinds = append(kinds, "generation v2 not recognised")
+		case !wantV2 && idx.HasGenerationV2():
+			kinds = append(kinds, "generation v2 claimed for a graph without generation data in every layer")
+		case wantV2 && data.GenerationV2 != corr[i]:
+			kinds = append(kinds, "generation v2")
+		}
+		obs = map[string]any{"tree": data.TreeHash.String(), "parents": ph, "time": data.When.Unix(), "generation": data.Generation, "generation_v2": data.GenerationV2}
+		// the CommitNode view
+		node, e := ni.Get(in.H[i])
+		if e != nil {
+			kinds = append(kinds, "CommitNodeIndex.Get error")
+			return
+		}
+		if node.Generation() != lvl[i] || (wantV2 && node.GenerationV2() != wantCorr) || node.CommitTime().Unix() != in.Time[i] || node.NumParents() != len(want) || node.ID() != in.H[i] {
+			kinds = append(kinds, "CommitNode view")
+		}
+		var nph []string
+		for _, h := range node.ParentHashes() {
+			nph = append(nph, h.String())
+		}
+		if strings.Join(nph, " ") != strings.Join(want, " ") {
+			kinds = append(kinds, "CommitNode ParentHashes")
+		}
+		// ParentNode(k): the node must be the parent (id) AND carry the parent's
+		// own record (generation, time, number of parents)
+		for k, pn := range in.Parents[i] {
+			p, e := node.ParentNode(k)
+			if e != nil || p.ID().String() != want[k] {
+				kinds = append(kinds, "CommitNode parent")
+				break
+			}
+			if p.Generation() != lvl[pn] || p.CommitTime().Unix() != in.Time[pn] || p.NumParents() != len(in.Parents[pn]) || (wantV2 && p.GenerationV2() != corr[pn]) {
+				kinds = append(kinds, "CommitNode parent record")
+				break
+			}
+		}
+		if _, e := node.ParentNode(len(want)); e == nil {
+			kinds = append(kinds, "CommitNode parent beyond the last")
+		}
+		// ParentNodes(): the same parents, in order, through the iterator
+		var iterIDs []string
+		it := node.ParentNodes()
+		for {
+			p, e := it.Next()
+			if e != nil {
+				break
+			}
+			iterIDs = append(iterIDs, p.ID().String())
+			if len(iterIDs) > len(want)+1 {
+				break
+			}
+		}
+		it.Close()
+		if strings.Join(iterIDs, " ") != strings.Join(want, " ") {
+			kinds = append(kinds, "CommitNode ParentNodes iterator")
+		}
+	})
+	if pan != "" {
+		kinds = append(kinds, "panic")
+		obs["panic"] = pan
+	}
+	return
+}
+
+// c51OffBand names the generation-data offset band of one commit.
+func c51OffBand(off uint64) string {
+	switch {
+	case off >= 1<<32:
+		return "offset>=2^32"
+	case off >= 1<<31:
+		return "offset in [2^31,2^32)"
+	case off > 0:
+		return "small offset"
+	}
+	return "none"
+}
+
+// c51EncodeUnion has go-git write ONE commit-graph holding the commits of all
+// the given instances (deduplicated by id).
+func c51EncodeUnion(insts []*eInst, withV2 bool) ([]byte, int, error) {
+	mi := cgfmt.NewMemoryIndex()
+	seen := map[plumbing.Hash]bool{}
+	n := 0
+	for _, in := range insts {
+		lvl, corr := c51Gen(in)
+		for i := 0; i < in.N; i++ {
+			if seen[in.H[i]] {
+				continue
+			}
+			seen[in.H[i]] = true
+			n++
+			var ph []plumbing.Hash
+			for _, p := range in.Parents[i] {
+				ph = append(ph, in.H[p])
+			}
+			d := &cgfmt.CommitData{TreeHash: plumbing.NewHash(in.Tree[i]), ParentHashes: ph,
+				Generation: lvl[i], When: time.Unix(in.Time[i], 0)}
+			if withV2 {
+				d.GenerationV2 = corr[i]
+			}
+			mi.Add(in.H[i], d)
+		}
+	}
+	var buf bytes.Buffer
+	var err error
+	if pan := eSafe(func() { err = cgfmt.NewEncoder(&buf).Encode(mi) }); pan != "" {
+		return nil, n, fmt.Errorf("panic: %s", pan)
+	}
+	return buf.Bytes(), n, err
+}
+
+// c51Octopuses counts the commits with more than two parents.
+func c51Octopuses(in *eInst) int {
+	n := 0
+	for _, p := range in.Parents {
+		if len(p) > 2 {
+			n++
+		}
+	}
+	return n
+}
+
 type c51Case struct {
 	in     *eInst
 	scheme string
@@ -162,21 +375,30 @@ func runC51(c *fw.Ctx) {
 	}
 	c.Bound("max_commits", maxN)
 	c.Bound("dags", "n<=4: up to 3 parents, every parent order (octopus -> EDGE chunk); n=5: every parent SET (up to 4 parents, ascending)")
+	c.Bound("multi_octopus_dags", "n=5: commit 3 = octopus of {0,1,2}, commit 4 = every parent set of 3 or 4 among {0..3}, commits 1,2 with every parent set (40 DAGs); n=6..8: hand-picked shapes with 3 octopus merges of 3, 4 and 5 parents, in several parent orders")
 	c.Bound("timestamp_schemes", names)
 	c.Bound("weak_orders", fmt.Sprintf("additionally every weak order (step 10 s) for n<=%d", weakN))
 	c.Bound("overflow_boundaries", "2-commit chain and a 3-commit fork with generation-data offset exactly 1, 2^31-1, 2^31, 2^31+1, 2^32-1, 2^32, 2^32+1, 2^33")
+	c.Bound("root_trees", "commit number k has the root tree {f<k>: empty blob}: 8 distinct trees")
 	c.Bound("chains", "git-written: single file; 2-layer chains cut at every commit number k (layer 1 = commits numbered < k); 3-layer chains for every pair of cuts")
-	c.SetRule("(A) one commit-graph per (DAG, timestamp scheme) written by go-git's MemoryIndex+Encoder (commits added in ascending and in descending order) and judged by `git commit-graph verify` in a bare repository borrowing the objects; plus go-git's re-encoding of the git-written universe graph; (B) git writes the graph of the universe of all cases (single file and split chains), go-git opens it with OpenChainOrFileIndex and every commit's tree/parents/time/generation v1/v2 are compared with values recomputed from the objects; non-trivial = commit with at least one parent; distinct counts (side, parent count class, offset band none/small/[2^31,2^32)/>=2^32, layer) classes")
-	c.Assume("git 2.39.5 commit-graph verify/write is the reference; go-git has no chain writer; SHA-1 only")
+	c.Bound("git_write_options", "single file: default, --changed-paths (Bloom chunks BIDX/BDAT), commitGraph.generationVersion=1 (no GDA2); 2-layer chains cut at 2: --changed-paths in both layers, generationVersion=1 in both layers, and the mixed chain (layer 0 with generation data, layer 1 without)")
+	c.Bound("optional_chunks", "git-written graphs of three sub-universes (cases of at most 3 commits without octopus merge and without / with overflowing offsets; 4-commit octopus cases with small offsets), each as single file and 2-layer chain, with and without Bloom filters: every combination of EDGE/GDO2/BIDX+BDAT/BASE presence except EDGE+GDO2 which the universe covers")
+	c.Bound("union_files", "go-git additionally writes one file per timestamp scheme holding every commit of every case of the scheme, and one file holding the whole universe, with and without generation v2")
+	c.SetRule("(A) one commit-graph per (DAG, timestamp scheme) written by go-git's MemoryIndex+Encoder (commits added in ascending and in descending order), one per scheme holding all the scheme's cases, one of the universe (with and without generation v2) and go-git's re-encodings of the git-written graphs (through a MemoryIndex, and Encode applied directly to the file index and to the chain index); each judged by `git commit-graph verify` in a bare repository borrowing the objects and read back by go-git (every commit compared); (B) git writes the graph of the universe of all cases (single file, split chains, with Bloom filters, without generation data, mixed), go-git opens it with OpenChainOrFileIndex and every commit's tree/parents/time/generation v1/v2 and the CommitNode view (ParentNode, ParentNodes, ParentHashes, the parent's own record) are compared with values recomputed from the objects; non-trivial = commit with at least one parent; distinct counts (side, parent count class, offset band none/small/[2^31,2^32)/>=2^32, layer, number of octopus merges in the file) classes")
+	c.Assume("git 2.39.5 commit-graph verify/write is the reference; go-git has no chain writer; SHA-1 only; a file that passes git commit-graph verify is a valid commit-graph that go-git must read correctly")
 
 	// ---- the cases
+	treeIDs, treeObjs := c51Trees(8)
 	var cases []*c51Case
 	add := func(d fw.DAG, t []int64, scheme string) {
 		at := make([]int64, len(t))
 		for i := range at {
 			at[i] = eBase
 		}
-		in := eNewInstTimes(d, t, at, nil)
+		in := eNewInstTimes(d, t, at, func(i int) string { return treeIDs[i] })
+		if len(cases) == 0 {
+			in.Extra = treeObjs
+		}
 		cases = append(cases, &c51Case{in, scheme, fmt.Sprintf("parents=%v times=%v", d.Parents, t)})
 	}
 	for n := 1; n <= maxN; n++ {
@@ -201,12 +423,40 @@ func runC51(c *fw.Ctx) {
 			}
 		}
 	}
+	// several octopus merges in one graph: the extra-edge list positions of the
+	// second and later merges
+	var multi []fw.DAG
+	for _, p1 := range fw.Subsets(1, 1) {
+		for _, p2 := range fw.Subsets(2, 2) {
+			for _, p4 := range fw.Subsets(4, 4) {
+				if len(p4) < 3 {
+					continue
+				}
+				multi = append(multi, fw.DAG{Parents: [][]int{{}, p1, p2, {0, 1, 2}, p4}})
+			}
+		}
+	}
+	multi = append(multi,
+		fw.DAG{Parents: [][]int{{}, {}, {}, {0, 1, 2}, {3, 2, 1, 0}, {4, 0, 3, 1, 2}}},
+		fw.DAG{Parents: [][]int{{}, {}, {}, {2, 1, 0}, {1, 2, 3}, {2, 3, 4}}},
+		fw.DAG{Parents: [][]int{{}, {0}, {0}, {0}, {1, 2, 3}, {3, 2, 1}, {4, 5, 0, 1}, {6, 5, 4, 3, 2}}},
+		fw.DAG{Parents: [][]int{{}, {0}, {1}, {2, 1, 0}, {3}, {4, 3, 2, 1, 0}, {5, 4}, {6, 5, 3}}},
+	)
+	for _, d := range multi {
+		for _, s := range schemes {
+			add(d, s.times(len(d.Parents)), s.name)
+		}
+	}
 	for _, off := range []int64{1, 1<<31 - 1, 1 << 31, 1<<31 + 1, 1<<32 - 1, 1 << 32, 1<<32 + 1, 1 << 33} {
 		// corrected(child) = root+1, offset = root+1-child
 		add(fw.DAG{Parents: [][]int{{}, {0}}}, []int64{1000 + off - 1, 1000}, fmt.Sprintf("offset=%d", off))
 		add(fw.DAG{Parents: [][]int{{}, {0}, {0}}}, []int64{1000 + off - 1, 1000, 1000 + off + 5}, fmt.Sprintf("offset=%d fork", off))
 	}
 	c.Bound("cases", len(cases))
+	maxNum := 0 // largest number of commits of a case
+	for _, cs := range cases {
+		maxNum = max(maxNum, cs.in.N)
+	}
 
 	insts := make([]*eInst, len(cases))
 	for i, cs := range cases {
@@ -216,6 +466,12 @@ func runC51(c *fw.Ctx) {
 	mainObjects := filepath.Join(repo.Dir, "objects")
 	c.Extra("universe_commits", repo.NObjs)
 	fails := eNewFailSet()
+	phases := []string{}
+	phase := func(name string) {
+		phases = append(phases, fmt.Sprintf("%s@%.0fs", name, c.Elapsed().Seconds()))
+		c.Extra("phase_end_times", phases)
+	}
+	phase("repository built")
 
 	band := func(in *eInst) string {
 		_, corr := c51Gen(in)
@@ -240,17 +496,124 @@ func runC51(c *fw.Ctx) {
 				m = len(p)
 			}
 		}
-		if m > 2 {
+		switch k := c51Octopuses(in); {
+		case k > 1:
+			return fmt.Sprintf("%d octopuses (up to %d parents)", min(k, 3), m)
+		case k == 1:
 			return "octopus"
 		}
 		return fmt.Sprintf("maxpar%d", m)
 	}
 
 	miniRoot := c.TempDir("c51mini")
+	// gitVerify puts a go-git-written graph in a bare repository borrowing the
+	// objects and returns git's verdict.
+	gitVerify := func(name string, graph []byte) fw.Res {
+		dir := filepath.Join(miniRoot, name)
+		c51MiniRepo(dir, mainObjects, graph)
+		r := repo.G.In(dir).Run("commit-graph", "verify")
+		os.RemoveAll(dir)
+		return r
+	}
+	// ownReadBack: go-git reads a file go-git wrote; every commit of the given
+	// cases is compared. Returns the sorted set of deviation kinds.
+	ownReadBack := func(graph []byte, ins []*eInst, wantV2 bool) (string, map[string]any) {
+		idx, err := cgfmt.OpenFileIndex(nopCloserAt{bytes.NewReader(graph)})
+		if err != nil {
+			return "OpenFileIndex error", map[string]any{"error": err.Error()}
+		}
+		defer idx.Close()
+		ni := cgobj.NewGraphCommitNodeIndex(idx, memory.NewStorage())
+		set := map[string]bool{}
+		var first map[string]any
+		for _, in := range ins {
+			lvl, corr := c51Gen(in)
+			for i := 0; i < in.N; i++ {
+				c.Eval()
+				kinds, obs := c51Compare(idx, ni, nil, in, i, lvl, corr, wantV2)
+				for _, k := range kinds {
+					set[k] = true
+				}
+				if len(kinds) > 0 && first == nil {
+					first = map[string]any{"instance": in.Desc(), "commit": i, "go_git": obs, "deviations": kinds}
+				}
+			}
+		}
+		var ks []string
+		for k := range set {
+			ks = append(ks, k)
+		}
+		sort.Strings(ks)
+		return strings.Join(ks, "+"), first
+	}
+
+	// ---- (A) go-git writes, git verifies, go-git reads back
+	// (A1) one file per scheme with every commit of the scheme's cases, and the universe
+	type group struct {
+		name string
+		ins  []*eInst
+	}
+	var groups []*group
+	gidx := map[string]*group{}
+	for _, cs := range cases {
+		name := cs.scheme
+		if strings.HasPrefix(name, "offset=") {
+			name = "offset boundaries"
+		}
+		g := gidx[name]
+		if g == nil {
+			g = &group{name: name}
+			gidx[name] = g
+			groups = append(groups, g)
+		}
+		g.ins = append(g.ins, cs.in)
+	}
+	groups = append(groups, &group{"universe", insts}, &group{"universe without generation v2", insts})
+	c.ParDo(len(groups), 0, func(gi int) {
+		g := groups[gi]
+		withV2 := g.name != "universe without generation v2"
+		b, ncommits, err := c51EncodeUnion(g.ins, withV2)
+		c.Eval()
+		octo := 0
+		seenC := map[string]bool{}
+		for _, in := range g.ins {
+			for i := 0; i < in.N; i++ {
+				if !seenC[in.ID[i]] {
+					seenC[in.ID[i]] = true
+					if len(in.Parents[i]) > 2 {
+						octo++
+					}
+				}
+			}
+		}
+		rep := func(got string) func() map[string]any {
+			return func() map[string]any {
+				return map[string]any{"file": "one commit-graph holding every commit of every case of: " + g.name, "commits": ncommits, "octopus_merges": octo, "observed": got}
+			}
+		}
+		if err != nil {
+			fails.Add("Encoder.Encode fails [many cases in one file]", gi, g.name, g.name+": "+err.Error(), rep(err.Error()))
+			return
+		}
+		r := gitVerify(fmt.Sprintf("u%d", gi), b)
+		c.Class(fmt.Sprintf("A union file [%s] commits>256=%v octopuses>1=%v ok=%v", g.name, ncommits > 256, octo > 1, r.OK()))
+		if !r.OK() {
+			fails.Add("go-git-written commit-graph holding many cases fails git commit-graph verify: "+c51Norm(string(r.Err)), gi, g.name,
+				g.name+": "+strings.TrimSpace(string(r.Err)), rep(strings.TrimSpace(string(r.Err))))
+		}
+		if dev, first := ownReadBack(b, g.ins, withV2); dev != "" {
+			fails.Add("go-git-written commit-graph holding many cases read back wrong by go-git: "+dev, gi, g.name, g.name+": "+dev, func() map[string]any {
+				m := rep(dev)()
+				m["first"] = first
+				return m
+			})
+		}
+	})
+	phase("A1 union files")
 	// ---- (B) git writes, go-git reads
 	var allIDs bytes.Buffer
 	seen := map[string]bool{}
-	byNum := make([]bytes.Buffer, maxN+1) // ids of commits numbered < k
+	byNum := make([]bytes.Buffer, maxNum+1) // ids of commits numbered < k
 	for _, in := range insts {
 		for i := 0; i < in.N; i++ {
 			if seen[in.ID[i]] {
@@ -258,12 +621,81 @@ func runC51(c *fw.Ctx) {
 			}
 			seen[in.ID[i]] = true
 			allIDs.WriteString(in.ID[i] + "\n")
-			for k := i + 1; k <= maxN; k++ {
+			for k := i + 1; k <= maxNum; k++ {
 				byNum[k].WriteString(in.ID[i] + "\n")
 			}
 		}
 	}
-	readBack := func(layout string, layerOf func(num int) int) {
+	// reEncode: go-git writes again what it read from git (directly from the
+	// opened index, or through a MemoryIndex); git verifies, go-git reads back.
+	reEncode := func(layout string, wantV2 bool) {
+		for _, via := range []string{"direct", "memory"} {
+			if c.Expired() {
+				return
+			}
+			idx, err := cgfmt.OpenChainOrFileIndex(osfs.New(repo.Dir))
+			if err != nil {
+				return // reported by readBack
+			}
+			var buf bytes.Buffer
+			bad := ""
+			pan := eSafe(func() {
+				var src cgfmt.Index = idx
+				if via == "memory" {
+					mi := cgfmt.NewMemoryIndex()
+					for _, h := range idx.Hashes() {
+						pos, e1 := idx.GetIndexByHash(h)
+						if e1 != nil {
+							bad = e1.Error()
+							return
+						}
+						d, e2 := idx.GetCommitDataByIndex(pos)
+						if e2 != nil {
+							bad = e2.Error()
+							return
+						}
+						mi.Add(h, d)
+					}
+					src = mi
+				}
+				if err := cgfmt.NewEncoder(&buf).Encode(src); err != nil {
+					bad = err.Error()
+				}
+			})
+			idx.Close()
+			if pan != "" {
+				bad = "panic: " + pan
+			}
+			c.Eval()
+			what := fmt.Sprintf("[%s, %s]", layout0(layout), via)
+			if bad != "" {
+				fails.Add("go-git cannot re-encode the git-written universe graph "+what, 0, "", bad, func() map[string]any { return map[string]any{"layout": layout, "via": via, "error": bad} })
+				continue
+			}
+			r := gitVerify("reencode", buf.Bytes())
+			c.Class(fmt.Sprintf("A re-encode universe %s ok=%v", what, r.OK()))
+			if !r.OK() {
+				fails.Add("go-git re-encoding of the git-written universe graph fails git commit-graph verify "+what+": "+c51Norm(string(r.Err)), 0, "", strings.TrimSpace(string(r.Err)),
+					func() map[string]any {
+						return map[string]any{"layout": layout, "via": via, "stderr": strings.TrimSpace(string(r.Err)), "commits": repo.NObjs}
+					})
+			}
+			if dev, first := ownReadBack(buf.Bytes(), insts, wantV2); dev != "" {
+				fails.Add("go-git re-encoding of the git-written universe graph read back wrong by go-git "+what+": "+dev, 0, "", dev, func() map[string]any { return first })
+			}
+		}
+	}
+	var readBackSel func(layout string, wantV2 bool, layerOf func(num int) int, sel []int, ncommits int)
+	readBack := func(layout string, wantV2 bool, layerOf func(num int) int) {
+		readBackSel(layout, wantV2, layerOf, nil, repo.NObjs)
+	}
+	readBackSel = func(layout string, wantV2 bool, layerOf func(num int) int, sel []int, ncommits int) {
+		if sel == nil {
+			sel = make([]int, len(cases))
+			for i := range sel {
+				sel[i] = i
+			}
+		}
 		var idx cgfmt.Index
 		var err error
 		if pan := eSafe(func() { idx, err = cgfmt.OpenChainOrFileIndex(osfs.New(repo.Dir)) }); pan != "" || err != nil {
@@ -275,98 +707,21 @@ func runC51(c *fw.Ctx) {
 		for _, h := range idx.Hashes() {
 			hashes[h] = true
 		}
-		c.ParDo(len(cases), 0, func(ci int) {
+		if len(hashes) != ncommits || int(idx.MaximumNumberOfHashes()) != ncommits {
+			fails.Add("git-written commit-graph: Hashes()/MaximumNumberOfHashes() do not count the commits ["+layout0(layout)+"]", 0, layout, layout,
+				func() map[string]any {
+					return map[string]any{"layout": layout, "hashes": len(hashes), "maximum_number_of_hashes": idx.MaximumNumberOfHashes(), "commits": ncommits}
+				})
+		}
+		c.ParDo(len(sel), 0, func(si int) {
+			ci := sel[si]
 			in := cases[ci].in
 			lvl, corr := c51Gen(in)
 			ni := cgobj.NewGraphCommitNodeIndex(idx, memory.NewStorage())
 			for i := 0; i < in.N; i++ {
 				c.Eval()
-				var kinds []string
-				var data *cgfmt.CommitData
-				var pos uint32
-				var err error
-				pan := eSafe(func() {
-					pos, err = idx.GetIndexByHash(in.H[i])
-					if err == nil {
-						data, err = idx.GetCommitDataByIndex(pos)
-					}
-				})
-				obs := map[string]any{}
-				switch {
-				case pan != "":
-					kinds = append(kinds, "panic")
-					obs["panic"] = pan
-				case err != nil:
-					kinds = append(kinds, "lookup error")
-					obs["error"] = err.Error()
-				default:
-					if h, e := idx.GetHashByIndex(pos); e != nil || h != in.H[i] {
-						kinds = append(kinds, "GetHashByIndex mismatch")
-					}
-					if !hashes[in.H[i]] {
-						kinds = append(kinds, "missing from Hashes()")
-					}
-					if data.TreeHash.String() != in.Tree[i] {
-						kinds = append(kinds, "tree")
-					}
-					var ph []string
-					for _, p := range data.ParentHashes {
-						ph = append(ph, p.String())
-					}
-					var want []string
-					for _, p := range in.Parents[i] {
-						want = append(want, in.ID[p])
-					}
-					if strings.Join(ph, " ") != strings.Join(want, " ") {
-						kinds = append(kinds, "parents")
-					}
-					if len(data.ParentIndexes) != len(want) {
-						kinds = append(kinds, "parent indexes")
-					} else {
-						for k, pi := range data.ParentIndexes {
-							if h, e := idx.GetHashByIndex(pi); e != nil || h.String() != want[k] {
-								kinds = append(kinds, "parent indexes")
-								break
-							}
-						}
-					}
-					if data.When.Unix() != in.Time[i] {
-						kinds = append(kinds, "commit time")
-					}
-					if data.Generation != lvl[i] {
-						kinds = append(kinds, "generation v1")
-					}
-					if !idx.HasGenerationV2() {
-						kinds = append(kinds, "generation v2 not recognised")
-					} else if data.GenerationV2 != corr[i] {
-						kinds = append(kinds, "generation v2")
-					}
-					obs = map[string]any{"tree": data.TreeHash.String(), "parents": ph, "time": data.When.Unix(), "generation": data.Generation, "generation_v2": data.GenerationV2}
-					// the CommitNode view
-					if node, e := ni.Get(in.H[i]); e != nil {
-						kinds = append(kinds, "CommitNodeIndex.Get error")
-					} else {
-						if node.Generation() != lvl[i] || node.GenerationV2() != corr[i] || node.CommitTime().Unix() != in.Time[i] || node.NumParents() != len(want) {
-							kinds = append(kinds, "CommitNode view")
-						}
-						for k := range want {
-							if p, e := node.ParentNode(k); e != nil || p.ID().String() != want[k] {
-								kinds = append(kinds, "CommitNode parent")
-								break
-							}
-						}
-					}
-				}
-				off := corr[i] - uint64(in.Time[i])
-				ob := "none"
-				switch {
-				case off >= 1<<32:
-					ob = "offset>=2^32"
-				case off >= 1<<31:
-					ob = "offset in [2^31,2^32)"
-				case off > 0:
-					ob = "small offset"
-				}
+				kinds, obs := c51Compare(idx, ni, hashes, in, i, lvl, corr, wantV2)
+				ob := c51OffBand(corr[i] - uint64(in.Time[i]))
 				np := len(in.Parents[i])
 				pc := fmt.Sprintf("%d parents", min(np, 3))
 				if len(kinds) > 0 {
@@ -375,7 +730,7 @@ func runC51(c *fw.Ctx) {
 						fmt.Sprintf("%s commit %d", layout, i), fmt.Sprintf("%s %s commit %d: %v", layout, cases[ci].label, i, obs),
 						func() map[string]any {
 							return map[string]any{"layout": layout, "instance": in.Desc(), "commit": i, "go_git": obs,
-								"expected": map[string]any{"generation": lvl[i], "generation_v2": corr[i], "time": in.Time[i], "parents": in.Parents[i]}}
+								"expected": map[string]any{"generation": lvl[i], "generation_v2": corr[i], "time": in.Time[i], "parents": in.Parents[i], "tree": in.Tree[i]}}
 						})
 				}
 				if np > 0 {
@@ -386,62 +741,134 @@ func runC51(c *fw.Ctx) {
 	}
 	graphFile := filepath.Join(repo.Dir, "objects", "info", "commit-graph")
 	chainDir := filepath.Join(repo.Dir, "objects", "info", "commit-graphs")
+	layer0 := func(int) int { return 0 }
+	v1 := repo.G.C("commitGraph.generationVersion=1")
 
 	repo.G.MustRunIn(allIDs.Bytes(), "commit-graph", "write", "--stdin-commits")
 	repo.G.MustRun("commit-graph", "verify")
-	readBack("single file", func(int) int { return 0 })
-	// go-git re-encodes what it read from git; git verifies it
-	if !c.Expired() {
-		gb, err := os.ReadFile(graphFile)
-		c.Must(err, "read git-written commit-graph")
-		idx, err := cgfmt.OpenFileIndex(nopCloserAt{bytes.NewReader(gb)})
-		if err == nil {
-			mi := cgfmt.NewMemoryIndex()
-			bad := ""
-			for _, h := range idx.Hashes() {
-				pos, e1 := idx.GetIndexByHash(h)
-				d, e2 := idx.GetCommitDataByIndex(pos)
-				if e1 != nil || e2 != nil {
-					bad = fmt.Sprint(e1, e2)
-					break
-				}
-				mi.Add(h, d)
+	readBack("single file", true, layer0)
+	reEncode("single file", true)
+	os.Remove(graphFile)
+
+	repo.G.MustRunIn(allIDs.Bytes(), "commit-graph", "write", "--stdin-commits", "--changed-paths")
+	repo.G.MustRun("commit-graph", "verify")
+	if gb, err := os.ReadFile(graphFile); err != nil || !bytes.Contains(gb[:200], []byte("BIDX")) {
+		fw.Abort("git wrote no Bloom chunks with --changed-paths (%v)", err)
+	}
+	readBack("single file with Bloom filters", true, layer0)
+	os.Remove(graphFile)
+
+	v1.MustRunIn(allIDs.Bytes(), "commit-graph", "write", "--stdin-commits")
+	repo.G.MustRun("commit-graph", "verify")
+	if gb, err := os.ReadFile(graphFile); err != nil || bytes.Contains(gb[:200], []byte("GDA2")) {
+		fw.Abort("git wrote generation data with commitGraph.generationVersion=1 (%v)", err)
+	}
+	readBack("single file without generation data", false, layer0)
+	reEncode("single file without generation data", false)
+	os.Remove(graphFile)
+
+	// optional chunks: graphs of sub-universes that need no EDGE and/or no GDO2
+	// chunk, each as a single file and as a 2-layer chain (BASE), with and
+	// without Bloom chunks, so that every chunk is followed by every other.
+	for _, su := range []struct {
+		name     string
+		octopus  bool
+		overflow bool
+	}{{"no EDGE, no GDO2", false, false}, {"EDGE, no GDO2", true, false}, {"GDO2, no EDGE", false, true}} {
+		var sel []int
+		var ids, low bytes.Buffer
+		seenS := map[string]bool{}
+		for ci, cs := range cases {
+			in := cs.in
+			b := band(in)
+			if (c51Octopuses(in) > 0) != su.octopus || (b == "offset>=2^32" || b == "offset in [2^31,2^32)") != su.overflow || in.N > 4 {
+				continue
 			}
-			var buf bytes.Buffer
-			if bad == "" {
-				if pan := eSafe(func() { err = cgfmt.NewEncoder(&buf).Encode(mi) }); pan != "" {
-					bad = "panic: " + pan
-				} else if err != nil {
-					bad = err.Error()
-				}
+			if su.octopus && cs.scheme != "monotone" && cs.scheme != "all-equal" && cs.scheme != "reversed(small offsets)" {
+				continue
 			}
-			c.Eval()
-			if bad != "" {
-				fails.Add("go-git cannot re-encode the git-written universe graph", 0, "", bad, func() map[string]any { return map[string]any{"error": bad} })
-			} else {
-				dir := filepath.Join(miniRoot, "reencode")
-				c51MiniRepo(dir, mainObjects, buf.Bytes())
-				r := repo.G.In(dir).Run("commit-graph", "verify")
-				os.RemoveAll(dir)
-				c.Class(fmt.Sprintf("A re-encode universe ok=%v", r.OK()))
-				if !r.OK() {
-					fails.Add("go-git re-encoding of the git-written universe graph fails git commit-graph verify: "+c51Norm(string(r.Err)), 0, "", strings.TrimSpace(string(r.Err)),
-						func() map[string]any { return map[string]any{"stderr": strings.TrimSpace(string(r.Err)), "commits": repo.NObjs} })
+			if !su.octopus && in.N > 3 {
+				continue
+			}
+			sel = append(sel, ci)
+			for i := 0; i < in.N; i++ {
+				if !seenS[in.ID[i]] {
+					seenS[in.ID[i]] = true
+					ids.WriteString(in.ID[i] + "\n")
+					if i < 2 {
+						low.WriteString(in.ID[i] + "\n")
+					}
 				}
 			}
 		}
+		if len(sel) == 0 {
+			fw.Abort("empty sub-universe %s", su.name)
+		}
+		for _, bloom := range []bool{false, true} {
+			for _, chain := range []bool{false, true} {
+				if c.Expired() {
+					break
+				}
+				args := []string{"commit-graph", "write", "--stdin-commits"}
+				layout := "single file"
+				if chain {
+					args = append(args, "--split=no-merge")
+					layout = "chain cut at 2"
+				}
+				if bloom {
+					args = append(args, "--changed-paths")
+					layout += " with Bloom filters"
+				}
+				layout += " (" + su.name + ")"
+				if chain {
+					repo.G.MustRunIn(low.Bytes(), args...)
+				}
+				repo.G.MustRunIn(ids.Bytes(), args...)
+				repo.G.MustRun("commit-graph", "verify")
+				// the chunk table must be what the layout's name says
+				top := graphFile
+				if chain {
+					cb, err := os.ReadFile(filepath.Join(chainDir, "commit-graph-chain"))
+					c.Must(err, "chain file")
+					ls := eLines(cb)
+					if len(ls) != 2 {
+						fw.Abort("git wrote %d chain layers for %s", len(ls), layout)
+					}
+					top = filepath.Join(chainDir, "graph-"+ls[1]+".graph")
+				}
+				gb, err := os.ReadFile(top)
+				c.Must(err, "git-written graph")
+				toc := gb[:min(len(gb), 8+12*12)]
+				for sig, want := range map[string]bool{"EDGE": su.octopus, "GDO2": su.overflow, "BIDX": bloom, "BASE": chain, "GDA2": true} {
+					if bytes.Contains(toc, []byte(sig)) != want {
+						fw.Abort("git-written %s: chunk %s present=%v, expected %v", layout, sig, !want, want)
+					}
+				}
+				readBackSel(layout, true, func(num int) int {
+					if chain && num >= 2 {
+						return 1
+					}
+					return 0
+				}, sel, len(seenS))
+				os.Remove(graphFile)
+				os.RemoveAll(chainDir)
+			}
+		}
 	}
-	os.Remove(graphFile)
-
+	phase("B single files")
 	// chains
-	type cut struct{ a, b int }
+	type cut struct {
+		a, b int
+		kind string // "", bloom, v1, mixed
+	}
 	var cuts []cut
 	for a := 1; a < maxN; a++ {
-		cuts = append(cuts, cut{a, 0})
+		cuts = append(cuts, cut{a, 0, ""})
 	}
+	cuts = append(cuts, cut{2, 0, "bloom"}, cut{2, 0, "v1"}, cut{2, 0, "mixed"})
 	for a := 1; a < maxN; a++ {
 		for b := a + 1; b < maxN; b++ {
-			cuts = append(cuts, cut{a, b})
+			cuts = append(cuts, cut{a, b, ""})
 		}
 	}
 	for _, ct := range cuts {
@@ -450,13 +877,33 @@ func runC51(c *fw.Ctx) {
 			break
 		}
 		os.RemoveAll(chainDir)
-		repo.G.MustRunIn(byNum[ct.a].Bytes(), "commit-graph", "write", "--split=no-merge", "--stdin-commits")
-		layout := fmt.Sprintf("chain cut at %d", ct.a)
+		g1, g2 := repo.G, repo.G
+		var extra []string
+		wantV2 := true
+		suffix := ""
+		switch ct.kind {
+		case "bloom":
+			extra = []string{"--changed-paths"}
+			suffix = " with Bloom filters"
+		case "v1":
+			g1, g2 = v1, v1
+			wantV2 = false
+			suffix = " without generation data"
+		case "mixed":
+			g2 = v1
+			wantV2 = false
+			suffix = " mixed (generation data in layer 0 only)"
+		}
+		wr := func(g *fw.Git, ids []byte) {
+			g.MustRunIn(ids, append([]string{"commit-graph", "write", "--split=no-merge", "--stdin-commits"}, extra...)...)
+		}
+		wr(g1, byNum[ct.a].Bytes())
+		layout := fmt.Sprintf("chain cut at %d%s", ct.a, suffix)
 		if ct.b > 0 {
-			repo.G.MustRunIn(byNum[ct.b].Bytes(), "commit-graph", "write", "--split=no-merge", "--stdin-commits")
+			wr(g1, byNum[ct.b].Bytes())
 			layout = fmt.Sprintf("chain cut at %d and %d", ct.a, ct.b)
 		}
-		repo.G.MustRunIn(allIDs.Bytes(), "commit-graph", "write", "--split=no-merge", "--stdin-commits")
+		wr(g2, allIDs.Bytes())
 		repo.G.MustRun("commit-graph", "verify")
 		cb, err := os.ReadFile(filepath.Join(chainDir, "commit-graph-chain"))
 		c.Must(err, "chain file")
@@ -467,7 +914,7 @@ func runC51(c *fw.Ctx) {
 		if got := len(eLines(cb)); got != wantLayers {
 			fw.Abort("git wrote %d chain layers for %s, expected %d", got, layout, wantLayers)
 		}
-		readBack(layout, func(num int) int {
+		readBack(layout, wantV2, func(num int) int {
 			switch {
 			case num < ct.a:
 				return 0
@@ -478,9 +925,14 @@ func runC51(c *fw.Ctx) {
 			}
 			return 1
 		})
+		if ct.a == 2 && (ct.b == 0 || ct.b == 3) && ct.kind != "bloom" {
+			reEncode(layout, wantV2)
+		}
 	}
 	os.RemoveAll(chainDir)
-	// ---- (A) go-git writes, git verifies (after (B): (A) is one git process per case)
+	phase("B chains")
+
+	// (A2) one file per case (after (B): one git process per case)
 	c.ParDo(len(cases), 0, func(i int) {
 		cs := cases[i]
 		in := cs.in
@@ -507,14 +959,15 @@ func runC51(c *fw.Ctx) {
 				fails.Add("Encoder output depends on the order commits were added", i, cs.label, cs.label, rep("bytes differ"))
 			}
 			prev = b
-			dir := filepath.Join(miniRoot, fmt.Sprintf("r%d_%v", i, rev))
-			c51MiniRepo(dir, mainObjects, b)
-			r := repo.G.In(dir).Run("commit-graph", "verify")
-			os.RemoveAll(dir)
+			r := gitVerify(fmt.Sprintf("r%d_%v", i, rev), b)
 			if !r.OK() {
 				msg := c51Norm(string(r.Err))
 				fails.Add(fmt.Sprintf("go-git-written commit-graph fails git commit-graph verify [%s]: %s", band(in), msg), i, cs.label,
 					cs.label+": "+strings.TrimSpace(string(r.Err)), rep(strings.TrimSpace(string(r.Err))))
+			}
+			if dev, first := ownReadBack(b, []*eInst{in}, true); dev != "" {
+				fails.Add(fmt.Sprintf("go-git-written commit-graph read back wrong by go-git [%s; %s]: %s", band(in), pclass(in), dev), i, cs.label, cs.label+": "+dev,
+					func() map[string]any { m := rep(dev)(); m["first"] = first; return m })
 			}
 			if in.N > 1 {
 				c.Class(fmt.Sprintf("A %s %s ok=%v", band(in), pclass(in), r.OK()))
@@ -522,14 +975,24 @@ func runC51(c *fw.Ctx) {
 		}
 	})
 
+	phase("A2 one file per case")
 	fails.Report(c)
 }
 
 // layout0 reduces a layout label to its kind for class keys.
 func layout0(l string) string {
 	switch {
+	case strings.Contains(l, " ("):
+		l = strings.Replace(l, "chain cut at 2", "2-layer chain", 1)
+		return l
 	case strings.HasPrefix(l, "chain cut at") && strings.Contains(l, " and "):
 		return "3-layer chain"
+	case strings.HasPrefix(l, "chain") && strings.Contains(l, " with Bloom"):
+		return "2-layer chain with Bloom filters"
+	case strings.HasPrefix(l, "chain") && strings.Contains(l, " without generation"):
+		return "2-layer chain without generation data"
+	case strings.HasPrefix(l, "chain") && strings.Contains(l, " mixed"):
+		return "2-layer mixed chain"
 	case strings.HasPrefix(l, "chain"):
 		return "2-layer chain"
 	}
